@@ -77,12 +77,47 @@ def opFilterTable : Rd String := do
   let ex := r.map (fun x => showRats x.2.2)
   pure (" ".intercalate (showNats (r.map (·.2.1)) :: showNameToks (r.map (·.1)) :: ex))
 
-/-- `ranges n {x}*` → `1 min best max`, or `0` for an empty selection -/
+/-- a double as a token: `nan`, `inf`, `-inf` or a rational -/
+def efTok : Rd (SF.EF Rat) := do
+  let t ← tok
+  match t with
+  | "nan" => pure SF.EF.nan
+  | "inf" => pure SF.EF.pinf
+  | "-inf" => pure SF.EF.ninf
+  | _ =>
+    match parseRat t with
+    | some q => pure (SF.EF.fin q)
+    | none => throw s!"bad-ef:{t}"
+
+def showEfTok : SF.EF Rat → String
+  | SF.EF.nan => "nan"
+  | SF.EF.pinf => "inf"
+  | SF.EF.ninf => "-inf"
+  | SF.EF.fin q => showRat q
+
+/-- `ranges n {x}*` (each `x` a rational, `nan`, `inf` or `-inf`) → `1 min best max`
+    (`np.nanmin`, `[0]`, `np.nanmax`), or `0` for an empty selection -/
 def opParRanges : Rd String := do
-  let xs ← listOf rat
-  match paramRanges xs with
+  let xs ← listOf efTok
+  match paramRangesEF xs with
   | none => pure "0"
-  | some (lo, best, hi) => pure s!"1 {showRat lo} {showRat best} {showRat hi}"
+  | some (lo, best, hi) => pure s!"1 {showEfTok lo} {showEfTok best} {showEfTok hi}"
+
+/-- `filtertablefull prep nC {column name}* nT {name}* nM {name}* nAdd {key nE {name value}*}*`:
+    `filter_table` with its guards (`MODEL_NAME` column, post-check, "already exists", `KeyError`);
+    column names and keys travel like model names
+    → as `filtertable`, or `err noModelName|sortFailed|indexError|dupColumn|keyError` -/
+def opFilterTableFull : Rd String := do
+  let prep ← nat
+  let cols ← listOf nameTok
+  let tnames ← listOf nameTok
+  let mn ← listOf nameTok
+  let addl ← listOf (do let k ← nameTok; let d ← readNameDict; pure (k, d))
+  let rows : List (String × Nat) := tnames.zipIdx
+  let table := if prep = 1 then prepTable rows else rows
+  let r ← liftMErr (filterTableFull cols table mn addl)
+  let ex := r.map (fun x => showRats x.2.2)
+  pure (" ".intercalate (showNats (r.map (·.2.1)) :: showNameToks (r.map (·.1)) :: ex))
 
 /-- `parcounts n {flag}* nfits` → `n_data n_fits` -/
 def opParCounts : Rd String := do
@@ -96,6 +131,7 @@ def handleC07 (op : String) : Option (Rd String) :=
   | "ordermatch" => some opOrderMatch
   | "convnames" => some opConvNames
   | "filtertable" => some opFilterTable
+  | "filtertablefull" => some opFilterTableFull
   | "ranges" => some opParRanges
   | "parcounts" => some opParCounts
   | _ => none
